@@ -5,7 +5,7 @@
 From Coq Require Import List Bool Arith Lia ZArith Permutation.
 Import ListNotations.
 From SG Require Import Engine.Graph Engine.Dfs Engine.Sweep Engine.History.
-From SG Require Import Proofs.DfsProofs Proofs.SweepProofs Proofs.HistoryProofs.
+From SG Require Import Proofs.DfsProofs Proofs.SweepProofs Proofs.HistoryProofs Proofs.RelabelProofs.
 
 Lemma filter_len_le {X} (f : X -> bool) l : length (filter f l) <= length l.
 Proof. induction l as [|x l IH]; cbn [filter length]; [lia|]. destruct (f x); cbn [length]; lia. Qed.
@@ -73,6 +73,35 @@ Proof.
   rewrite Hb in H1. inversion H1; subst.
   rewrite (calls_count g root Hwf ord Hroot H2). split; [reflexivity|].
   eapply Nat.le_trans; [apply filter_len_le|]. rewrite seq_length. lia.
+Qed.
+
+(* renumbering the tensors (another construction order of independent sub-expressions) changes no gradient *)
+Theorem relabel_invariant g g' (pi : nat -> nat) (w w' : weights A) mode root seed (b b' b1 b1' : bufs A) l l' :
+  wf g -> wf g' -> (forall n, node_ok (getn g n)) -> (forall n, node_ok (getn g' n)) ->
+  (forall x y, x < length g -> y < length g -> pi x = pi y -> x = y) ->
+  (forall n, n < length g ->
+     children (getn g' (pi n)) = map pi (children (getn g n)) /\
+     req (getn g' (pi n)) = req (getn g n) /\
+     has_fn (getn g' (pi n)) = has_fn (getn g n) /\
+     retain (getn g' (pi n)) = retain (getn g n)) ->
+  (forall n k, n < length g -> w' (pi n) k = w n k) ->
+  (forall n, n < length g -> b' (pi n) = b n) ->
+  root < length g ->
+  backward A g w mode root seed b = Some (b1, l) ->
+  backward A g' w' mode (pi root) seed b' = Some (b1', l') ->
+  forall v, v < length g -> b1' (pi v) = b1 v.
+Proof.
+  intros Hwf Hwf' Hok Hok' Hinj Hnode Hw Hb Hroot H1 H2 v Hv.
+  assert (Hreq : req (getn g root) = true).
+  { unfold backward in H1. destruct (req (getn g root)); [reflexivity|discriminate]. }
+  assert (Hreq' : req (getn g' (pi root)) = true).
+  { destruct (Hnode root Hroot) as [_ [Hr _]]. rewrite Hr. exact Hreq. }
+  assert (Hroot' : pi root < length g').
+  { destruct (lt_dec (pi root) (length g')) as [H|H]; [exact H|]. rewrite getn_overflow in Hreq' by lia. discriminate. }
+  destruct (backward_expected A Aok g w mode root seed Hwf Hok Hreq b dfs_spec_holds Hroot) as [c1 [o1 [E1 [_ X1]]]].
+  destruct (backward_expected A Aok g' w' mode (pi root) seed Hwf' Hok' Hreq' b' dfs_spec_holds Hroot') as [c2 [o2 [E2 [_ X2]]]].
+  rewrite H1 in E1. rewrite H2 in E2. inversion E1; inversion E2; subst.
+  rewrite X1, X2. apply (expected_relabel A Aok g g' pi w w' Hwf Hwf' Hinj Hnode Hw); assumption.
 Qed.
 
 End Closed.
